@@ -77,14 +77,19 @@ Theorem c27_reconnects_after_rollback : forall faults lst s, blocked s ->
 Proof. exact reconnects_after_rollback. Qed.
 Print Assumptions c27_reconnects_after_rollback.
 
-(* GUARDED: an invalidated connection WITHOUT a transaction in progress reconnects on the next execute - provided
-   no inactive savepoint is (still) current; see c27_reconnect_after_failed_rollback_refuted *)
-Theorem c27_reconnects_when_no_transaction : forall faults lst s,
-  s_cur s = None -> s_txn s = TNone -> head_inactive (s_nested s) = false ->
+(* an invalidated connection WITHOUT a transaction in progress reconnects on the next execute: in EVERY reachable
+   state (unguarded since fix fff6083: "no transaction in progress => no current savepoint" is an invariant) *)
+Theorem c27_reconnects_when_no_transaction : forall faults lst w h s,
+  s = final faults lst h (init w) -> s_cur s = None -> s_txn s = TNone ->
   faults (S (s_n s)) = FOk -> faults (S (S (s_n s))) = FOk ->
   exists s', step faults lst OExec s = (s', ROk) /\ invalidated s' = false /\ in_txn s' = true.
-Proof. exact reconnects_when_unblocked. Qed.
+Proof. exact reconnects_when_no_transaction. Qed.
 Print Assumptions c27_reconnects_when_no_transaction.
+
+Theorem c27_no_orphan_savepoint : forall faults lst w h,
+  no_orphan_savepoint (final faults lst h (init w)).
+Proof. intros faults lst w h. exact (final_orphan faults lst h (init w) (fun _ => eq_refl)). Qed.
+Print Assumptions c27_no_orphan_savepoint.
 
 (* non_disconnect_leaves_pool_untouched: any outcome other than a disconnect-classified error on a live
    connection leaves the pool (idle records, invalidation time), the connection in use, the number of opened
@@ -94,17 +99,14 @@ Theorem c27_non_disconnect_leaves_pool_untouched : forall faults lst o s s' c,
 Proof. exact non_disconnect_leaves_pool_untouched. Qed.
 Print Assumptions c27_non_disconnect_leaves_pool_untouched.
 
-(* REFUTED (reproduced, KNOWN-FINDING C27-failed-rollback-leaves-savepoint): when rollback() itself fails at the
-   DBAPI, RootTransaction._close_impl skips _nested_transaction._cancel(): the savepoint of the rolled-back
-   transaction stays current; if it is inactive (its release failed before) every later execute raises
-   PendingRollbackError although rollback() was called and no transaction is in progress *)
+(* formerly refuted (finding C27-failed-rollback-leaves-savepoint, fixed by fff6083): rollback() that itself
+   fails at the DBAPI while an inactive savepoint is open now cancels the savepoint; the next execute reconnects *)
 Definition ex_faults_rb (n : nat) : fault := if Nat.eqb n 2 then FErr else if Nat.eqb n 3 then FDisc else FOk.
-Theorem c27_reconnect_after_failed_rollback_refuted :
+Example c27_ex_reconnect_after_failed_rollback :
   let r := run ex_faults_rb [] [OSavepoint; OReleaseSp; ORollback; OExec; OExec] (init 1) in
-  map fst r = [ROk; RErr; RDisc; RPending; RPending] /\
-  map (fun cs => in_txn (snd cs)) r = [true; true; false; false; false].
+  map fst r = [ROk; RErr; RDisc; ROk; ROk] /\
+  map (fun cs => s_nested (snd cs)) r = [[true]; [false]; []; []; []].
 Proof. vm_compute. auto. Qed.
-Print Assumptions c27_reconnect_after_failed_rollback_refuted.
 
 (* the handle_error listener chain: the classification the handler ends with is the last value assigned by a
    listener that ran, however the chain ended (all returned None, some returned exceptions, one raised) *)
